@@ -65,13 +65,10 @@ def check(ctx):
         if fn is None:
             continue
         t = show(Norm(fn).term(fn["body"]), 10 ** 6)
-        ok = False
-        i = t.find(".String::push(',') if ")
-        if i >= 0:
-            j = t.find(";.String::push(')')", i)
-            seg = t[i:j if j > 0 else len(t)]
-            ok = "(let v1::Some($)=Peekable::peek(" in seg and "||(slice::len(" in seg and "fields)=='1'))" in seg
-        ctx.expect(ok, "C13.3", nm, fn["sp"], "comma pushed iff peek().is_some() || len == 1 (one-element tuples keep their comma)", "tuple comma rule changed in " + fnsuf)
+        import re as _re
+        # canonical form of the separator loop: the members joined by ',', then one more ',' iff there is exactly one member
+        ok = _re.search(r"\.String::push_str\(slice::join\(.*,','\)\);\.String::push\(','\) if \(slice::len\([^()]*fields\)=='1'\);\.String::push\('\)'\)", t) is not None
+        ctx.expect(ok, "C13.3", nm, fn["sp"], "members joined by ',' and a trailing ',' iff len == 1 (one-element tuples keep their comma)", "tuple comma rule changed in " + fnsuf + ": " + t[:300])
     # K1 primitive names
     pf = q.fn1(P, "description::primitive_type_description", D)
     if pf is None:
